@@ -158,7 +158,7 @@ def ends_with(p, suf):
 
 class SymStr:
     """mixin: intrinsic() for string/fmt/iterator operations"""
-    str_cap = 1000
+    str_cap = 120
 
     def __init__(self, facts):
         self.facts = facts
